@@ -196,6 +196,11 @@ package xpath
 //@ func (nodesetDatum).literalSlice
 //@   ensures len(result) >= 1
 //@   loop 0 invariant len(litSlice) == loopidx + 1
+// The values of a leaf-list operand (any other operand is its own single value); reading them changes nothing.
+//@ func (Datum).DatumSlice
+//@   params context
+//@ func leafListValues
+//@   ensures implies(!is(d, datumSliceDatum), len(result) == 1 && result[0] == d && isfresh(result))
 //@ func (*context).compareWorker
 //@   requires ctx != nil
 //@   modifies ctx.stack
